@@ -132,9 +132,10 @@ prop('C08',
      design_ref='DESIGN.md §5 C08')
 
 prop('C02',
-     modules=['LarkVerif.Earley', 'LarkVerif.LR', 'LarkVerif.LRCheck', 'LarkVerif.LRComplete', 'LarkVerif.FirstSets', 'LarkVerif.LRClosedCheck', 'LarkVerif.LALRTable', 'LarkVerif.Props.C02'],
+     modules=['LarkVerif.Earley', 'LarkVerif.LR', 'LarkVerif.LR0', 'LarkVerif.LRCheck', 'LarkVerif.LRComplete', 'LarkVerif.FirstSets', 'LarkVerif.LRClosedCheck', 'LarkVerif.LALRTable', 'LarkVerif.Props.C02'],
      theorems=['Props.C02.accepted_is_sentence', 'Props.C02.certified_table_accepts_every_sentence', 'LRProto.checkClosed_sound', 'Props.C02.driver_sound', 'Props.C02.driver_complete', 'Props.C02.error_iff_unresolved_conflict', 'Props.C02.no_winner_iff',
-               'Props.C02.shift_wins', 'Props.C02.winner_order_independent', 'LRProto.checkSafe_sound', 'LRProto.viable_prefix_shifts', 'LRProto.firstOf_of_tables'],
+               'Props.C02.shift_wins', 'Props.C02.winner_order_independent', 'LRProto.checkSafe_sound', 'LRProto.viable_prefix_shifts', 'LRProto.firstOf_of_tables',
+               'Props.C02.state_is_closure_of_kernel', 'Props.C02.checked_automaton_is_lr0'],
      fingerprints=['lark/parsers/lalr_analysis.py:digraph', 'lark/parsers/lalr_analysis.py:traverse', 'lark/parsers/lalr_analysis.py:LALR_Analyzer.compute_lr0_states',
                    'lark/parsers/lalr_analysis.py:LALR_Analyzer.compute_reads_relations', 'lark/parsers/lalr_analysis.py:LALR_Analyzer.compute_includes_lookback',
                    'lark/parsers/lalr_analysis.py:LALR_Analyzer.compute_lookaheads', 'lark/parsers/lalr_analysis.py:LALR_Analyzer.compute_lalr1_states',
@@ -143,7 +144,7 @@ prop('C02',
           'Per grammar: (a) the Lean decision logic `build` on lark\'s own per-state lookahead sets must reproduce GrammarError yes/no and every action row; (b) lark\'s lookahead sets vs canonical LR(1) merged by core '
           '(independent oracle) and `build` on those; (c) the compiled driver evaluates on lark\'s own table the soundness certificate checkSafe (=> sound for all inputs) and the completeness certificate checkClosed with lark\'s NULLABLE/FIRST and an item-lookahead annotation (=> every sentence accepted; every conflict-free table must pass, no table with conflicts may). Per token string '
           '(sampled sentences, mutated, random): parse() vs the Lean LR driver on lark\'s table, vs membership decided by the verified Earley recogniser (soundness always, completeness when the grammar has no conflict), '
-          'choices()/accepts() after every prefix vs the model row / trial feeding, error token index. Non-trivial: > 3 states or non-empty string; distinct by canonical hash.',
+          'choices()/accepts() after every prefix vs the model row / trial feeding, error token index. Non-trivial: > 3 states or non-empty string; distinct by canonical hash. LR(0) stream: the item sets, kernels and transitions of lark\'s own analyzer are passed to the Lean checker LR0.checkLR0 (every state = closure of its kernel, every transition = advanced kernel, no expected symbol without transition) for every generated grammar, including an indirect-left-recursion shape; when it fails, every sentence of the grammar up to length 7 is parsed in search of a rejected one.',
      not_proved=['that lark\'s DeRemer-Pennello computation yields the LALR(1) lookaheads for all grammars (dp_eq_propagation) is not proved; it is compared per grammar with canonical-LR(1)-merge',
                  'the completeness certificate is evaluated with item lookaheads supplied by the Python LR(1)-merge oracle (untrusted: the verified checker validates them) and lark\'s own NULLABLE/FIRST; tables with conflicts are not certified (completeness is not claimed there)'],
      assumptions=['dict/set iteration order does not matter (winner_order_independent covers the priority choice)'],
